@@ -172,7 +172,7 @@ pub fn schedule(data: &[u8]) -> Option<String> {
             5 | 6 => Action::SamplePrivate(u.arbitrary().ok()?),
             7 | 8 => Action::IterTake(u.arbitrary().ok()?),
             9 => Action::CloneAndSample,
-            _ => Action::RebuildAndSample,
+            _ => match u.int_in_range(0..=2u8).ok()? { 0 => Action::RebuildAndSample, 1 => Action::CloneFrom(u.int_in_range(0..=5u8).ok()? as usize), _ => Action::DirtySlice(u.arbitrary().ok()?) },
         };
         steps.push((oi, a));
     }
